@@ -530,9 +530,9 @@ Example gc_example :
 Proof. split; [apply descb_sound; reflexivity|]. vm_compute. auto 10. Qed.
 
 (* a concrete client history, used by the non-vacuity examples of Props/C16.v *)
-Definition gc_tbl : bytes := [112; 47; 116; 97; 98; 108; 101; 115; 47; 116]%N.   (* "p/tables/t" *)
+Definition gc_tbl : bytes := [112; 114; 111; 106; 101; 99; 116; 115; 47; 112; 47; 105; 110; 115; 116; 97; 110; 99; 101; 115; 47; 105; 47; 116; 97; 98; 108; 101; 115; 47; 116]%N.   (* "projects/p/instances/i/tables/t" *)
 Definition gc_history : list call :=
-  [ mkCall (BCreateTable [112%N] [116%N] [([102%N], Some (GMaxAge 0 0)); ([103%N], None)]) 0 [];
+  [ mkCall (BCreateTable [112; 114; 111; 106; 101; 99; 116; 115; 47; 112; 47; 105; 110; 115; 116; 97; 110; 99; 101; 115; 47; 105]%N [116%N] [([102%N], Some (GMaxAge 0 0)); ([103%N], None)]) 0 [];
     mkCall (BMutateRow gc_tbl [97%N] [SetCell [102%N] [113%N] 1000 [1%N]]) 0 [];
     mkCall (BMutateRow gc_tbl [98%N] [SetCell [102%N] [113%N] 9000 [1%N]; SetCell [102%N] [113%N] 2000 [2%N];
                                       SetCell [103%N] [113%N] 1000 [5%N]]) 0 [] ].
